@@ -623,4 +623,113 @@ theorem globItems_star_true (u : Str) : globItems [.star] u = true := by
   simp only [globItems]
   exact any_range_succ_of _ _ u.length (Nat.le_refl _) (by simp)
 
+/-! ## Python `repr` of list elements: decoding undoes it (round 2) -/
+
+theorem decodeGo_x2 (c : Char) (rest : Str) (h : c.toNat < 256) :
+    decodeGo ('\\' :: 'x' :: hex2 c.toNat ++ rest) 0 = (decodeGo rest 0).map (c :: ·) := by
+  have e1 : isHex (hexDigit (c.toNat / 16 % 16)) = true := isHex_hexDigit _ (by omega)
+  have e2 : isHex (hexDigit (c.toNat % 16)) = true := isHex_hexDigit _ (by omega)
+  have v1 := hexVal_hexDigit (c.toNat / 16 % 16) (by omega)
+  have v2 := hexVal_hexDigit (c.toNat % 16) (by omega)
+  have hn : hexNum [hexDigit (c.toNat / 16 % 16), hexDigit (c.toNat % 16)] = c.toNat := by
+    simp [hexNum, v1, v2]; omega
+  simp only [hex2, List.cons_append, List.nil_append]
+  exact decodeGo_hex _ _ rest e1 e2 c (by rw [hn]; exact chrOf_toNat c)
+
+theorem decodeGo_u4 (c : Char) (rest : Str) (h : c.toNat < 65536) :
+    decodeGo ('\\' :: 'u' :: hex4 c.toNat ++ rest) 0 = (decodeGo rest 0).map (c :: ·) := by
+  have e0 : isHex (hexDigit (c.toNat / 4096 % 16)) = true := isHex_hexDigit _ (by omega)
+  have e1 : isHex (hexDigit (c.toNat / 256 % 16)) = true := isHex_hexDigit _ (by omega)
+  have e2 : isHex (hexDigit (c.toNat / 16 % 16)) = true := isHex_hexDigit _ (by omega)
+  have e3 : isHex (hexDigit (c.toNat % 16)) = true := isHex_hexDigit _ (by omega)
+  have v0 := hexVal_hexDigit (c.toNat / 4096 % 16) (by omega)
+  have v1 := hexVal_hexDigit (c.toNat / 256 % 16) (by omega)
+  have v2 := hexVal_hexDigit (c.toNat / 16 % 16) (by omega)
+  have v3 := hexVal_hexDigit (c.toNat % 16) (by omega)
+  have hn : hexNum [hexDigit (c.toNat / 4096 % 16), hexDigit (c.toNat / 256 % 16), hexDigit (c.toNat / 16 % 16), hexDigit (c.toNat % 16)] = c.toNat := by
+    simp [hexNum, v0, v1, v2, v3]; omega
+  have h1 : isSimpleEsc 'u' = false := by decide
+  have h2 : isDigit 'u' = false := by decide
+  have hc : chrOf c.toNat = some c := chrOf_toNat c
+  simp [hex4, decodeGo, escAt, escBackslash, escHexN, h1, h2, e0, e1, e2, e3, hn, hc]
+
+theorem decodeGo_U8 (c : Char) (rest : Str) :
+    decodeGo ('\\' :: 'U' :: hex8 c.toNat ++ rest) 0 = (decodeGo rest 0).map (c :: ·) := by
+  have hlt : c.toNat < 1114112 := by
+    have hv : c.toNat.isValidChar := c.valid
+    rcases hv with h | ⟨_, h⟩ <;> omega
+  have e0 : isHex (hexDigit (c.toNat / 268435456 % 16)) = true := isHex_hexDigit _ (by omega)
+  have e1 : isHex (hexDigit (c.toNat / 16777216 % 16)) = true := isHex_hexDigit _ (by omega)
+  have e2 : isHex (hexDigit (c.toNat / 1048576 % 16)) = true := isHex_hexDigit _ (by omega)
+  have e3 : isHex (hexDigit (c.toNat / 65536 % 16)) = true := isHex_hexDigit _ (by omega)
+  have e4 : isHex (hexDigit (c.toNat / 4096 % 16)) = true := isHex_hexDigit _ (by omega)
+  have e5 : isHex (hexDigit (c.toNat / 256 % 16)) = true := isHex_hexDigit _ (by omega)
+  have e6 : isHex (hexDigit (c.toNat / 16 % 16)) = true := isHex_hexDigit _ (by omega)
+  have e7 : isHex (hexDigit (c.toNat % 16)) = true := isHex_hexDigit _ (by omega)
+  have v0 := hexVal_hexDigit (c.toNat / 268435456 % 16) (by omega)
+  have v1 := hexVal_hexDigit (c.toNat / 16777216 % 16) (by omega)
+  have v2 := hexVal_hexDigit (c.toNat / 1048576 % 16) (by omega)
+  have v3 := hexVal_hexDigit (c.toNat / 65536 % 16) (by omega)
+  have v4 := hexVal_hexDigit (c.toNat / 4096 % 16) (by omega)
+  have v5 := hexVal_hexDigit (c.toNat / 256 % 16) (by omega)
+  have v6 := hexVal_hexDigit (c.toNat / 16 % 16) (by omega)
+  have v7 := hexVal_hexDigit (c.toNat % 16) (by omega)
+  have hn : hexNum (hex8 c.toNat) = c.toNat := by
+    simp [hex8, hexNum, v0, v1, v2, v3, v4, v5, v6, v7]; omega
+  have h1 : isSimpleEsc 'U' = false := by decide
+  have h2 : isDigit 'U' = false := by decide
+  have hc : chrOf c.toNat = some c := chrOf_toNat c
+  simp only [hex8] at hn
+  simp [hex8, decodeGo, escAt, escBackslash, escHexN, h1, h2, e0, e1, e2, e3, e4, e5, e6, e7, hn, hc]
+
+theorem decodeGo_pyReprChar (np : List Char) (qc : Char) (hq : GoodQuote qc) (c : Char) (rest : Str) :
+    decodeGo (pyReprChar np qc c ++ rest) 0 = (decodeGo rest 0).map (c :: ·) := by
+  unfold pyReprChar
+  by_cases h1 : c = '\\'
+  · subst h1; simp only [if_true, List.cons_append, List.nil_append]
+    exact decodeGo_simple '\\' rest (by decide)
+  by_cases h5 : c = qc
+  · subst h5; simp only [h1, if_false, if_true, List.cons_append, List.nil_append]
+    rcases hq with h | h <;> subst h
+    · exact decodeGo_simple '"' rest (by decide)
+    · exact decodeGo_simple '\'' rest (by decide)
+  by_cases h2 : c = '\n'
+  · subst h2; simp only [h1, h5, if_false, if_true, List.cons_append, List.nil_append]
+    exact decodeGo_simple 'n' rest (by decide)
+  by_cases h3 : c = '\r'
+  · subst h3; simp only [h1, h2, h5, if_false, if_true, List.cons_append, List.nil_append]
+    exact decodeGo_simple 'r' rest (by decide)
+  by_cases h4 : c = '\t'
+  · subst h4; simp only [h1, h2, h3, h5, if_false, if_true, List.cons_append, List.nil_append]
+    exact decodeGo_simple 't' rest (by decide)
+  simp only [h1, h2, h3, h4, h5, if_false]
+  by_cases h6 : (c.toNat < 32 || c.toNat = 127) = true
+  · simp only [h6, if_true]
+    exact decodeGo_x2 c rest (by simp at h6; omega)
+  simp only [h6, if_false, Bool.false_eq_true]
+  by_cases h7 : c.toNat < 127
+  · simp only [h7, if_true]; exact decodeGo_cons_plain c rest h1
+  simp only [h7, if_false]
+  by_cases h8 : (!np.contains c) = true
+  · simp only [h8, if_true]; exact decodeGo_cons_plain c rest h1
+  simp only [h8, if_false, Bool.false_eq_true]
+  by_cases h9 : c.toNat < 256
+  · simp only [h9, if_true]; exact decodeGo_x2 c rest h9
+  simp only [h9, if_false]
+  by_cases h10 : c.toNat < 65536
+  · simp only [h10, if_true]; exact decodeGo_u4 c rest h10
+  simp only [h10, if_false]
+  exact decodeGo_U8 c rest
+
+/-- decoding undoes `repr`'s escaping, whichever quote `repr` chose and whichever characters count as
+non-printable -/
+theorem decodeBody_pyReprBody (np : List Char) (qc : Char) (hq : GoodQuote qc) (s : Str) :
+    decodeBody (s.flatMap (pyReprChar np qc)) = some s := by
+  unfold decodeBody
+  induction s with
+  | nil => simp [decodeGo]
+  | cons c s ih =>
+    simp only [List.flatMap_cons]
+    rw [decodeGo_pyReprChar np qc hq, ih]; rfl
+
 end Cel.XlateValue
